@@ -87,6 +87,7 @@ func (p *c07) Cases(tier string, emit func(interface{})) {
 			}
 		}
 	}
+	emit(c07Case{Part: "when"})
 	for _, prm := range []string{"depth", "fields", "fc.xfields"} {
 		emit(c07Case{Part: "sweep", Tree: "recur", Param: prm, Via: "constrain"})
 		emit(c07Case{Part: "sweep", Tree: "recur", Param: prm, Via: "find"})
@@ -373,6 +374,10 @@ func (p *c07) Run(raw json.RawMessage) eng.Result {
 	decode(raw, &c)
 	var res eng.Result
 	ss := &sigSet{res: &res}
+	if c.Part == "when" {
+		c07WhenUnderParams(&res, ss)
+		return res
+	}
 	m := model.SharedSchema("query")
 	if c.Tree == "recur" {
 		m = model.SharedSchema("recur")
@@ -670,4 +675,70 @@ func (p *c07) Run(raw json.RawMessage) eng.Result {
 		res.Evals = 1
 	}
 	return res
+}
+
+// c07WhenUnderParams: a query parameter filters what is returned, not what the when expressions of the
+// schema see. Nodes whose when refers to a leaf at its default value, or to a non-config leaf, are in
+// the constrained read exactly when they are in the unconstrained one (unless the parameter itself
+// excludes them).
+func c07WhenUnderParams(res *eng.Result, ss *sigSet) {
+	m := model.LoadText(`module qw { namespace "urn:qw"; prefix qw; revision 0;
+  leaf mode { type string; default "auto"; } leaf state { config false; type string; } leaf plain { type string; }
+  container w { when "../mode = 'auto'"; leaf x { type string; } }
+  container v { when "../state = 'on'"; leaf y { type string; } }
+  container u { when "../plain = 'p'"; leaf z { type string; } }
+  list l { key k; when "../mode = 'auto'"; leaf k { type string; } leaf q { type string; } } }`)
+	for _, doc := range []string{
+		`{"state":"on","plain":"p","w":{"x":"1"},"v":{"y":"2"},"u":{"z":"3"},"l":[{"k":"a","q":"4"}]}`,
+		`{"mode":"auto","state":"on","plain":"p","w":{"x":"1"},"v":{"y":"2"},"u":{"z":"3"},"l":[{"k":"a","q":"4"}]}`,
+		`{"mode":"manual","state":"off","plain":"x","w":{"x":"1"},"v":{"y":"2"},"u":{"z":"3"},"l":[{"k":"a","q":"4"}]}`,
+	} {
+		t, err := model.FromJSON(m.DataDefinitions(), []byte(doc))
+		if err != nil {
+			panic(err)
+		}
+		read := func(query string) (map[string]bool, error) {
+			got := store.NewRef(nil)
+			sel := node.NewBrowser(m, store.NewRef(t.Clone()).Node()).Root()
+			if query != "" {
+				var err error
+				if sel, err = sel.Constrain(query); err != nil {
+					return nil, err
+				}
+			}
+			if err := sel.UpsertInto(got.Node()); err != nil {
+				return nil, err
+			}
+			seen := map[string]bool{}
+			for id := range got.T.Conts {
+				seen[id] = true
+			}
+			for id := range got.T.Lists {
+				seen[id] = true
+			}
+			return seen, nil
+		}
+		full, err := read("")
+		if err != nil {
+			panic("harness: unconstrained read: " + err.Error())
+		}
+		for _, q := range []string{"with-defaults=trim", "content=config", "depth=5", "fields=w;v;u;l", "fc.xfields=plain", "fc.max-node-count=100", "with-defaults=trim&content=config"} {
+			res.Evals++
+			res.Nontriv++
+			got, err := read(q)
+			site := "C07/when-under-parameter/" + strings.SplitN(strings.SplitN(q, "&", 2)[0], "=", 2)[0]
+			if strings.Contains(q, "&") {
+				site += "+content"
+			}
+			if err != nil {
+				ss.add(site+"/error", fmt.Sprintf("%s on %s: %v", q, doc, err))
+				continue
+			}
+			for _, id := range []string{"w", "v", "u", "l"} {
+				if got[id] != full[id] {
+					ss.add(site+fmt.Sprintf("/node-present-%v-unconstrained-%v", got[id], full[id]), fmt.Sprintf("%s on %s: %s", q, doc, id))
+				}
+			}
+		}
+	}
 }
